@@ -68,7 +68,7 @@ Section Sound.
       py_nth ix axis = Some (IArr d) -> py_nth sh axis = Some n ->
       leafsem (Prim ir cr si so (PIndex false ix)) x = Some y1 ->
       leafsem (Wrap i w (Prim ir cr si so (PIndex false ix))) y1 = Some y ->
-      leafsem (Prim fresh CDiagonal si si (PDiag axis (map inject_Z (coverage_of n d)))) x = Some y;
+      leafsem (Prim fresh CDiagonal si si (PDiag axis (map inject_Z (coverage_of n (norm_index n d))))) x = Some y;
     lf_index_noop : forall i c si so u ix x y, indexed_axes ix = [] ->
       leafsem (Prim i c si so (PIndex u ix)) x = Some y -> y = x;
     lf_reshape_noop : forall i c si so p x y, (c = CRavel \/ c = CReshape) ->
